@@ -2,7 +2,7 @@
 World part: release clauses over scripted pipes (deterministic); net part: real TCP/IPC listeners."""
 import itertools
 
-from vlib import gen, worldgen as wg, zmtp
+from vlib import gen, netgen, worldgen as wg, zmtp
 from vlib.core import Case
 
 ID = "C17"
@@ -11,6 +11,9 @@ PEER = {"PULL": "PUSH", "SUB": "PUB", "DEALER": "ROUTER", "ROUTER": "DEALER", "R
         "PUB": "SUB", "PUSH": "PULL", "REQ": "REP"}
 PREFIX = ["attach", "recv-pending", "recv-delivered", "send", "peer-eof", "pending-handshake"]
 RULE = (
+    "net engine (real multi-thread runtime): socket type x transport (TCP v4/v6, IPC) x history prefix {bound only, bound + "
+    "accepted peers, + traffic, + a client still in its handshake} x {close(), drop}: the endpoints refuse new connections "
+    "(polled up to a deadline: 'shortly afterwards'), the IPC file is gone, accepted peers observe end-of-stream. "
     "world engine (deterministic, scripted pipes whose two halves record their own Drop): for every socket type (9) x "
     "every subset-ordered prefix of {peer attached, a recv was Pending, a recv delivered a message, a send, the peer sent "
     "EOF, a second peer still in its handshake} (EXHAUSTIVE over the 2^5 combinations applicable to the type) x {drop, "
@@ -23,6 +26,8 @@ ASSUMPTIONS = ["OS sockets, the tokio scheduler and timing ('shortly afterwards'
                "a connection whose handshake is still pending is the recorded finding D14"]
 TRUSTED = ["Arc/Drop semantics as modelled by the ownership graph (Model/Lifecycle.lean)"]
 SHRINK = False
+IMPL_ENV = netgen.net_env()
+IMPL_TIMEOUT = 2400
 
 
 def build(t, flags, how, n):
@@ -76,9 +81,36 @@ def build(t, flags, how, n):
     return c
 
 
+def net_case(t, tr, prefix, how, n):
+    """real listeners: after close()/drop the endpoint refuses, the IPC file is gone, accepted peers see EOF"""
+    peer = netgen.PEER[t]
+    ops = [f"sock 1 {t}", f"bind 1 {tr}", f"bind 1 {tr}"]
+    if "accepted" in prefix:
+        ops += ["rawconn 1 ep#0", f"rawhs 1 {peer}", "rawwait 1 hs", "rawconn 2 ep#1", f"rawhs 2 {peer}", "rawwait 2 hs"]
+    if "traffic" in prefix and t == "PULL":
+        ops += ["rawmsg 1 6869", "recv 1"]
+    if "pending-handshake" in prefix:
+        ops += ["rawconn 5 ep#0", f"rawhs 5 {peer} 30"]
+    ops.append("close 1" if how == "close" else "dropsock 1")
+    ops += ["probegone ep#0", "probegone ep#1"]
+    if "accepted" in prefix:
+        ops += ["rawwait 1 eof", "rawwait 2 eof"]
+    if "pending-handshake" in prefix:
+        ops.append("rawwait 5 open")
+    c = Case(f"{t}:{how}:net-{tr}-{'+'.join(prefix) or 'bound'}#{n}", "net", ops, [f"net-{how}"])
+    c.expect = ("net", t, prefix, how)
+    return c
+
+
 def cases(tier, rng):
     out = gen.corpus(ID)
     n = 0
+    for t in (["PULL", "PUB", "ROUTER", "REQ"] if tier == "quick" else netgen.TYPES9):
+        for tr in netgen.transports():
+            for prefix in ([], ["accepted"], ["accepted", "traffic"], ["accepted", "pending-handshake"], ["pending-handshake"]):
+                for how in ("close", "drop"):
+                    out.append(net_case(t, tr, prefix, how, n))
+                    n += 1
     opts = ["recv-pending", "recv-delivered", "send", "peer-eof", "pending-handshake"]
     for t in PEER:
         for r in range(0, len(opts) + 1):
@@ -93,6 +125,21 @@ def oracle(case, lines):
     if any(l.startswith(("PANIC", "ABORT", "TIMEOUT")) for l in lines):
         return "panic/abort"
     if not case.expect:
+        return None
+    if case.expect[0] == "net":
+        _, t, prefix, how = case.expect
+        for op, l in zip(case.ops, lines[1:]):
+            w = op.split()
+            if w[0] == "close" and l != "ok errs=0":
+                return f"close() reported failures: {l}"
+            if w[0] == "probegone" and l != "gone":
+                return f"after {how} the endpoint {w[1]} still accepts connections / its IPC file still exists: {l}"
+            if w[0] == "rawwait" and w[2] == "eof" and l != "eof":
+                return f"after {how} an accepted peer does not observe end-of-stream: {l}"
+            if w[0] == "rawwait" and w[2] == "open" and l == "open":
+                return f"after {how} the connection whose handshake was still pending stays open: {l}"
+            if w[0] == "recv" and not l.startswith("ok M["):
+                return f"traffic before the {how} failed: {l}"
         return None
     t, flags, how = case.expect
     res = list(zip(case.ops, lines[1:]))
